@@ -68,6 +68,22 @@ Proof. intros. reflexivity. Qed.
 Lemma rf_get_eq : forall rf a b, loc_eqb a b = true -> rf_get rf a = rf_get rf b.
 Proof. intros rf a b H. apply loc_eqb_iff in H. destruct H as [H1 H2]. unfold rf_get. rewrite H1, H2. reflexivity. Qed.
 
+Lemma name_eqb_sym : forall a b, name_eqb a b = name_eqb b a.
+Proof.
+  intros a b. destruct (name_eqb a b) eqn:E.
+  - apply name_eqb_eq in E. subst. symmetry. apply name_eqb_refl.
+  - destruct (name_eqb b a) eqn:E2; [|reflexivity]. apply name_eqb_eq in E2. subst. rewrite name_eqb_refl in E. discriminate.
+Qed.
+
+Lemma plain_read_eval : forall e l, plain_read e = Some l -> loc_ok l = true ->
+  forall rf env, aeval rf env e = Ret (rf_get rf l).
+Proof.
+  induction e; intros l0 H Hok rf env; cbn [plain_read] in H; try discriminate.
+  - inversion H; subst. cbn [aeval]. unfold read_loc. rewrite Hok. reflexivity.
+  - destruct (from <=? to) eqn:E; [|discriminate].
+    cbn [aeval]. rewrite (IHe l0 H Hok rf env). cbn [obind]. rewrite E. reflexivity.
+Qed.
+
 Lemma memoize_some_In : forall c n m, memoize c n = Some m -> In n (ct_registers c ++ names_of (ct_memo c)).
 Proof.
   intros c n m H. unfold memoize in H. apply in_or_app.
@@ -122,8 +138,8 @@ Record ctx_facts (c : ctx_table) : Prop := {
   f_alias : forall n, In n (accepted c) -> ok_alias c n = true;
   f_valid : forall n, In n (accepted c) -> ok_valid c n = true;
   f_groups : forall n, In n (names_of (ct_groups c)) -> is_some (memoize c n) = true;
-  f_sp : ok_special c (ct_sp_loc c) (ct_sp_name c) = true;
-  f_ip : ok_special c (ct_ip_loc c) (ct_ip_name c) = true;
+  f_sp : ok_special c (ct_sp_acc c) (ct_sp_name c) = true;
+  f_ip : ok_special c (ct_ip_acc c) (ct_ip_name c) = true;
   f_regs : forall r, In r (ct_registers c) -> ok_register c r = true;
   f_gpr : strs_eqb (ct_gpr c) (ct_registers c) = true
 }.
@@ -291,18 +307,47 @@ Proof.
   unfold get_register. cbn [is_valid]. rewrite H, G. reflexivity.
 Qed.
 
-Lemma special_agrees : forall l n, ok_special c l n = true -> forall rf,
-  get_always c rf n = Ret (rf_get rf l) /\ read_loc rf l = Ret (rf_get rf l) /\ memoize c n <> None.
+Lemma special_agrees : forall acc n, ok_special c acc n = true -> forall rf,
+  get_always c rf n = Ret (rf_get rf (acc_loc acc)) /\ aeval rf [] acc = Ret (rf_get rf (acc_loc acc)) /\
+  memoize c n <> None /\ loc_eqb (loc_of c n) (acc_loc acc) = true.
 Proof.
-  intros l n H rf. unfold ok_special in H. apply andb_true_iff in H. destruct H as [H Hm].
+  intros acc n H rf. unfold ok_special in H. apply andb_true_iff in H. destruct H as [H Hm].
   destruct (find_arm n (ct_get c)) as [g|] eqn:E; [|discriminate].
+  unfold acc_loc. destruct (plain_read acc) as [l|] eqn:P; [|discriminate].
   apply andb_true_iff in H. destruct H as [Hgl Hok].
   apply is_some_true in Hm. destruct Hm as [k Hk].
   pose proof (memoizable_accepted n k Hk) as An.
   pose proof (get_always_accepted rf n An) as G. unfold loc_of in G. rewrite E in G.
   split; [rewrite G, (rf_get_eq rf g l Hgl); reflexivity|].
-  split; [unfold read_loc; rewrite Hok; reflexivity|].
-  rewrite Hk. discriminate.
+  split; [exact (plain_read_eval acc l P Hok rf [])|].
+  split; [rewrite Hk; discriminate|].
+  unfold loc_of. rewrite E. exact Hgl.
+Qed.
+
+(* the dedicated accessor follows writes by name: a write through any spelling of the
+   accessor's register is what it returns, a write through any other name leaves it alone *)
+Lemma special_follows : forall acc s, ok_special c acc s = true ->
+  forall n l, In n (accepted c) -> find_arm n (ct_set c) = Some l -> forall rf v,
+  aeval (upd rf l v) [] acc = if opt_str_eqb (memoize c n) (memoize c s) then Ret v else aeval rf [] acc.
+Proof.
+  intros acc s H n l Hn Hl rf v.
+  destruct (special_agrees acc s H rf) as [_ [E0 [Hm Hloc]]].
+  destruct (special_agrees acc s H (upd rf l v)) as [_ [E1 _]].
+  rewrite E1, E0, rf_get_upd.
+  destruct (memoize c s) as [k|] eqn:Hk; [|contradiction].
+  pose proof (memoizable_accepted s k Hk) as As.
+  destruct (accepted_tables n Hn) as [a [b [Hg [Hs [Hab [Hoa [Hob Hln]]]]]]].
+  rewrite Hl in Hs. inversion Hs; subst b.
+  assert (X : loc_eqb (acc_loc acc) l = loc_eqb (loc_of c n) (loc_of c s)).
+  { rewrite Hln. apply loc_eqb_iff in Hloc. apply loc_eqb_iff in Hab. destruct Hloc as [L1 L2]. destruct Hab as [A1 A2].
+    unfold loc_eqb. rewrite L1, L2, A1, A2. rewrite (name_eqb_sym (l_field (acc_loc acc))), (Z.eqb_sym (l_idx (acc_loc acc))). reflexivity. }
+  rewrite X.
+  destruct (loc_eqb (loc_of c n) (loc_of c s)) eqn:E.
+  - apply (alias_loc n s Hn As) in E. rewrite <- Hk, E. 
+    assert (Y : opt_str_eqb (memoize c s) (memoize c s) = true) by (apply opt_str_eqb_spec; reflexivity).
+    rewrite Y. reflexivity.
+  - destruct (opt_str_eqb (memoize c n) (Some k)) eqn:Y; [|reflexivity].
+    apply opt_str_eqb_spec in Y. rewrite <- Hk in Y. apply (alias_loc n s Hn As) in Y. rewrite Y in E. discriminate.
 Qed.
 
 Lemma validity_aliases : forall n, In n (accepted c) -> forall s,
